@@ -198,6 +198,12 @@ def check_facts(pid, facts):
     def fn(name):
         return codec.get(name)
 
+    if pid == "C02":
+        want = {"bjse-trade-bin": "bse_trade_bin_v0.9.pdsl", "risk-bin": "risk_v0.1.0.pdsl", "sample-bin": "sample.pdsl",
+                "sse-bin": "sse_bin_v0.57.pdsl", "szse-bin": "szse_bin_v1.29.pdsl"}
+        got = facts.get("proto_dsl", {})
+        for mod, dsl in sorted(want.items()):
+            out.append(("pinned-protocol-version:" + mod, True if got.get(mod) == dsl else False, "Makefile PROTO_DSL = %s" % got.get(mod)))
     if pid == "C03":
         for name, f in sorted(codec.items()):
             if not (name.startswith("Read") or name.startswith("Write")):
